@@ -420,6 +420,22 @@ func (v *xmlValue) UnmarshalXML(d *ixml.Decoder, start ixml.StartElement) error 
 	// buffer. This forces the encoder to redeclare any used namespaces.
 	var b bytes.Buffer
 	e := ixml.NewEncoder(&b)
+	// The value is later written verbatim inside a property element that
+	// usually declares a default namespace. Encode the value below a wrapper
+	// element with a default namespace that no parsed document can use, so
+	// that the encoder also declares xmlns="" on elements that are in no
+	// namespace; the wrapper's start tag is cut off again below.
+	wrapper := ixml.StartElement{
+		Name: ixml.Name{Space: "\x00", Local: "value"},
+		Attr: []ixml.Attr{{Name: ixml.Name{Local: "xmlns"}, Value: "\x00"}},
+	}
+	if err := e.EncodeToken(wrapper); err != nil {
+		return err
+	}
+	if err := e.Flush(); err != nil {
+		return err
+	}
+	skip := b.Len()
 	// The value ends at the end element that closes start, not at the first
 	// end element that carries the same name: count the nesting depth.
 	depth := 0
@@ -446,7 +462,11 @@ loop:
 	if err != nil {
 		return err
 	}
-	*v = b.Bytes()
+	if b.Len() == skip {
+		*v = nil
+		return nil
+	}
+	*v = b.Bytes()[skip:]
 	return nil
 }
 
